@@ -121,6 +121,33 @@ pub fn c16_new_boxed_header() {
     cover!(n == 12 && p.k == 2, "two slices");
 }
 
+// @harness props=C16,C06 tier=quick panic=forbid builder=yes
+// @encodes new_boxed::<DynSizedStructure<BootInformationHeader>> BootInformationHeader::set_size total_size
+// @bound content 0..=12 bytes in 0..=3 slices (every residue mod 8)
+#[cfg_attr(kani, kani::proof)]
+#[cfg_attr(kani, kani::unwind(14))]
+pub fn c16_new_boxed_mbi() {
+    use multiboot2::BootInformationHeader;
+    let p = parts::<MAXC>();
+    let s = [&p.content[..p.c1], &p.content[p.c1..p.c2], &p.content[p.c2..p.total]];
+    let proto = Aligned::<8>([0; 8]);
+    let hdr: BootInformationHeader = unsafe { core::ptr::read(proto.0.as_ptr().cast()) };
+    let bx: Box<DynSizedStructure<BootInformationHeader>> = new_boxed(hdr, &s[..p.k]);
+    let n = p.used();
+    vassert!(bx.header().total_size() as usize == 8 + n, "total_size field = header size + total content length");
+    vassert!(bx.payload().len() == n, "payload length");
+    vassert!(core::mem::size_of_val(&*bx) == round8(8 + n), "in-memory size is the total rounded up to 8");
+    let mut same = true;
+    let mut i = 0;
+    while i < n {
+        same &= bx.payload()[i] == p.content[i];
+        i += 1;
+    }
+    vassert!(same, "content follows the header without gaps");
+    cover!(n == 1, "content length 1");
+    cover!(n == 8, "aligned content");
+}
+
 /// clone == original: same declared size, same bytes up to that size.
 fn clone_check<T: MaybeDynSized<Header = TagHeader, Metadata = usize> + ?Sized>(t: &T) {
     let c: Box<T> = clone_dyn(t);
